@@ -47,6 +47,7 @@ TreeVerdict(o) ==
       [] o.op = "get" ->
             IF ~(<<o.path, TGet(o.t, o.path)>> \in TItems(o.t)) THEN "bad_input"
             ELSE IF o.out # TGet(o.t, o.path) THEN "get_leaf"
+            ELSE IF o.path_after # o.path THEN "path_argument_changed"      \* the caller's list / tuple is what it was
             ELSE Changed("t", o.t, o.after)
       [] o.op = "update" ->
             LET g == ElemSet(o.ign) IN
@@ -56,7 +57,8 @@ TreeVerdict(o) ==
             ELSE Changed("t", o.t, o.t_after)
       [] o.op = "setitem" ->
             IF o.path = <<>> \/ ~WellFormed(o.t) THEN "bad_input"
-            ELSE IF o.t_after # Merge(o.t, Single(o.path, o.leaf), ElemSet(o.ign)) THEN "setitem" ELSE ""
+            ELSE IF o.t_after # Merge(o.t, Single(o.path, o.leaf), ElemSet(o.ign)) THEN "setitem"
+            ELSE IF o.path_after # o.path THEN "path_argument_changed" ELSE ""
       [] o.op = "to_table" ->
             LET p == ParsePat(o.pat) IN
             IF ~(DistinctVars(p) /\ VarsOf(p) # {} /\ WellFormed(o.t)) THEN "bad_input"
@@ -98,7 +100,7 @@ HeapVerdict(o) ==
     ELSE LET T == Unfold(o.objs, o.rt)
              v == CASE o.op = "hflatten" -> TreeVerdict([op |-> "flatten", t |-> T, items |-> o.items, keys |-> o.keys, values |-> o.values,
                                                           rebuilt |-> o.rebuilt, after |-> T])
-                    [] o.op = "hget"     -> TreeVerdict([op |-> "get", t |-> T, path |-> o.path, out |-> o.out, after |-> T])
+                    [] o.op = "hget"     -> TreeVerdict([op |-> "get", t |-> T, path |-> o.path, out |-> o.out, after |-> T, path_after |-> o.path_after])
                     [] o.op = "hupdate"  -> LET U == Unfold(o.objs, o.ru) IN
                                             TreeVerdict([op |-> "update", t |-> T, u |-> U, ign |-> o.ign, out |-> o.out, t_after |-> T, u_after |-> U])
                     [] o.op = "hto_table" -> TreeVerdict([op |-> "to_table", t |-> T, pat |-> o.pat, rows |-> o.rows, exc |-> o.exc, after |-> T])
